@@ -54,6 +54,11 @@ def subGet (es : List Entry) (keytype : String) : Option Key := (es.find? fun e 
 /-- `SubDict.keys()`: one name per matching entry (duplicates kept) -/
 def subKeys (es : List Entry) : List String := es.map (·.key.type)
 
+/-- `SubDict.items()` — the `Mapping` mixin: `[(k, self[k]) for k in self]`, i.e. one pair per matching entry, each
+carrying the *effective* (first) key of its type.  `values()`, `get`, `in`, `len` and iteration are the mixins over
+`__getitem__` / `keys()` as well; SubDict defines no other primitive. -/
+def subItems (es : List Entry) : List (String × Option Key) := es.map fun e => (e.key.type, subGet es e.key.type)
+
 /-- `check(hostname, key)` -/
 def check (p : Prims) (t : Table) (q : Name) (k : Key) : Bool :=
   match subGet (lookup p t q) k.type with
